@@ -100,40 +100,50 @@ fn sync_of(e: &crate::rt::Execution, l: &RwLock) -> Raw {
     sv::raw(&l.state.get(&e.objects).synchronize)
 }
 
-vharness! {
-    /// @prop C07 @tier quick @mode fast @cost 3 @timeout 3600 @funcs RwLock::release_read_lock,RwLock::unlock_threads,Synchronize::sync_store @bounds 3 threads; read-held by the acting thread 1 and possibly thread 0 (symbolic); thread 2 symbolic (unrelated / blocked elsewhere / pending read / pending write); all clock values
-    /// read-unlock: the reader leaves the reader set and publishes its view into the lock whether or not other readers remain; when it was the last reader the lock becomes free and every thread queued on the lock is runnable again; otherwise nobody is woken.
-    #[cfg_attr(kani, kani::unwind(8))]
-    fn rwlock_read_unlock_t1() {
-        let acting = 1;
-        let other_reader: bool = kani::any();
-        let (mut e, l, roles, codes, sync0) = world(acting, 2, 0, [other_reader, true, false]);
-        let cur = clock(&e, acting);
-        let c2 = clock(&e, 2);
-        sched::enter(&mut e, || l.release_read_lock());
-        // hand-over: everything the reader did is released into the lock
-        assert!(eq(&sync_of(&e, &l), &max_raw(&sync0, &cur)));
-        let st = l.state.get(&e.objects);
-        if other_reader {
-            match &st.lock {
-                Some(Locked::Read(s)) => assert!(s.len() == 1 && s.contains(&tv::tid(0))),
-                _ => assert!(false),
-            }
-            assert!(code_of(&e, 2) == codes[2]);
-        } else {
-            assert!(st.lock.is_none());
-            // pending writers (blocked by the readers) can run again
-            if roles[2] >= 2 {
-                assert!(code_of(&e, 2) == 0);
-            } else {
-                assert!(code_of(&e, 2) == codes[2]);
-            }
+fn read_unlock_case(other_reader: bool) {
+    let acting = 1;
+    let (mut e, l, roles, codes, sync0) = world(acting, 2, 0, [other_reader, true, false]);
+    let cur = clock(&e, acting);
+    let c2 = clock(&e, 2);
+    sched::enter(&mut e, || l.release_read_lock());
+    // hand-over: everything the reader did is released into the lock
+    assert!(eq(&sync_of(&e, &l), &max_raw(&sync0, &cur)));
+    let st = l.state.get(&e.objects);
+    if other_reader {
+        match &st.lock {
+            Some(Locked::Read(s)) => assert!(s.len() == 1 && s.contains(&tv::tid(0))),
+            _ => assert!(false),
         }
-        assert!(eq(&clock(&e, acting), &cur));
-        assert!(eq(&clock(&e, 2), &c2));
-        assert!(sched::switches() == 0);
-        kani::cover!(other_reader && !le(&cur, &sync0), "a non-last reader publishes something");
-        kani::cover!(!other_reader && roles[2] == 3, "last reader wakes a pending writer");
-        std::mem::forget(e);
+        assert!(code_of(&e, 2) == codes[2]);
+    } else {
+        assert!(st.lock.is_none());
+        // pending writers (blocked by the readers) can run again
+        if roles[2] >= 2 {
+            assert!(code_of(&e, 2) == 0);
+        } else {
+            assert!(code_of(&e, 2) == codes[2]);
+        }
     }
+    assert!(eq(&clock(&e, acting), &cur));
+    assert!(eq(&clock(&e, 2), &c2));
+    assert!(sched::switches() == 0);
+    kani::cover!(!le(&cur, &sync0), "the reader publishes something");
+    if !other_reader {
+        kani::cover!(roles[2] == 3, "last reader wakes a pending writer");
+    }
+    std::mem::forget(e);
+}
+
+vharness! {
+    /// @prop C07,C04 @tier quick @mode fast @cost 3 @timeout 3600 @funcs RwLock::release_read_lock,Synchronize::sync_store @bounds 3 threads; read-held by threads 0 and 1, thread 1 unlocks; thread 2 symbolic (unrelated / blocked elsewhere / pending read / pending write); all clock values
+    /// read-unlock while another reader remains: the reader leaves the reader set and still publishes its view into the lock (a later writer must see it); nobody is woken.
+    #[cfg_attr(kani, kani::unwind(8))]
+    fn rwlock_read_unlock_not_last() { read_unlock_case(true) }
+}
+
+vharness! {
+    /// @prop C07,C05 @tier quick @mode fast @cost 3 @timeout 3600 @funcs RwLock::release_read_lock,RwLock::unlock_threads @bounds 3 threads; read-held by thread 1 only; thread 2 symbolic
+    /// read-unlock by the last reader: the lock becomes free, the reader's view is published, every thread queued on the lock is runnable again.
+    #[cfg_attr(kani, kani::unwind(8))]
+    fn rwlock_read_unlock_last() { read_unlock_case(false) }
 }
